@@ -34,9 +34,19 @@ type OpSpec struct {
 	Ops []int `json:"ops"`
 }
 
+// GeoSpec is a stream of segments with free geometry (chained, collinear, overlapping, repeated,
+// zero-length ...) written in the given Write sizes by one producer: sinks direct2 dxf svg.
+type GeoSpec struct {
+	Sink    string     `json:"sink"`
+	Pattern string     `json:"pattern,omitempty"` // how the stream was generated (information only)
+	Segs    []pipe.Seg `json:"segs"`
+	Writes  []int      `json:"writes"`
+}
+
 type corpusC11 struct {
-	Specs []Spec   `json:"specs"`
-	Ops   []OpSpec `json:"ops"`
+	Specs []Spec    `json:"specs"`
+	Ops   []OpSpec  `json:"ops"`
+	Geo   []GeoSpec `json:"geo"`
 }
 
 type replayFile struct {
@@ -282,6 +292,128 @@ func runOps(o OpSpec) [][]int {
 	return <-done
 }
 
+// deliverGeo runs a segment stream through the real code and returns what the sink holds
+func deliverGeo(g GeoSpec, dir string) (got []pipe.Seg, batches []int, hasBatches bool, problem string) {
+	path := filepath.Join(dir, "geo."+g.Sink)
+	defer os.Remove(path)
+	restore := pipe.Silence()
+	defer restore()
+	var err error
+	rd := &pipe.GeoScript2{Segs: g.Segs, Writes: g.Writes}
+	switch g.Sink {
+	case "direct2":
+		for _, b := range pipe.DirectSegs2(rd) {
+			batches = append(batches, len(b))
+			got = append(got, b...)
+		}
+		hasBatches = true
+	case "dxf":
+		render.ToDXF(nil, path, rd)
+		got, err = pipe.DecodeDXFSegs(path)
+	case "svg":
+		render.ToSVG(nil, path, rd)
+		minX, maxY := pipe.BoundsSegs(g.Segs)
+		got, err = pipe.DecodeSVGSegs(path, minX, maxY)
+	default:
+		problem = "unknown sink " + g.Sink
+	}
+	if err != nil {
+		problem = "cannot decode the output: " + err.Error()
+	}
+	return
+}
+
+// geoStream generates n segments of the named kind on the quarter grid (exact in the 2 decimals of
+// the SVG writer and in DXF); (ox, oy) is the start.
+func geoStream(rng *Rng, kind string, n int) []pipe.Seg {
+	ox, oy := float64(rng.Range(-8, 8)), float64(rng.Range(-8, 8))
+	q := func() float64 { return float64(rng.Range(-40, 40)) / 4 }
+	var s []pipe.Seg
+	x, y := ox, oy
+	step := func(dx, dy float64) {
+		s = append(s, pipe.Seg{x, y, x + dx, y + dy})
+		x, y = x+dx, y+dy
+	}
+	switch kind {
+	case "chain-x": // unit steps along an axis-aligned edge, end to end
+		for i := 0; i < n; i++ {
+			step(1, 0)
+		}
+	case "chain-y":
+		for i := 0; i < n; i++ {
+			step(0, -0.5)
+		}
+	case "chain-diag": // collinear, same direction, varying lengths
+		for i := 0; i < n; i++ {
+			k := float64(rng.Range(1, 3))
+			step(0.5*k, 0.25*k)
+		}
+	case "outline": // closed rectangle walked in unit steps (what marching squares gives on a box)
+		w := n/4 + 1
+		for _, d := range [][2]float64{{1, 0}, {0, 1}, {-1, 0}, {0, -1}} {
+			for i := 0; i < w && len(s) < n; i++ {
+				step(d[0], d[1])
+			}
+		}
+	case "reversed": // chained in space, but every segment points backwards
+		for i := 0; i < n; i++ {
+			s = append(s, pipe.Seg{x + 1, y, x, y})
+			x++
+		}
+	case "back-forth": // a-b, b-a, a-b ...
+		for i := 0; i < n; i++ {
+			if i%2 == 0 {
+				step(1.5, 0.5)
+			} else {
+				step(-1.5, -0.5)
+			}
+		}
+	case "overlap": // collinear, each starts inside / at the start of the previous one
+		for i := 0; i < n; i++ {
+			l := float64(rng.Range(1, 4))
+			s = append(s, pipe.Seg{x, y, x + l, y})
+			x += float64(rng.Range(0, 2)) / 2
+		}
+	case "repeated": // identical segments, consecutively and again later
+		a := pipe.Seg{ox, oy, ox + 1, oy + 0.25}
+		b := pipe.Seg{ox + 1, oy + 0.25, ox + 2, oy + 0.5}
+		for i := 0; i < n; i++ {
+			if rng.Intn(4) == 0 {
+				s = append(s, b)
+			} else {
+				s = append(s, a)
+			}
+		}
+	case "zero": // zero-length segments alone, repeated and inside a chain
+		for i := 0; i < n; i++ {
+			switch rng.Intn(3) {
+			case 0:
+				step(0, 0)
+			case 1:
+				step(1, 0)
+			default:
+				s = append(s, pipe.Seg{x, y, x, y}, pipe.Seg{x, y, x, y})
+			}
+		}
+		s = s[:n]
+	case "grid": // random segments between few grid points: shared end points, collinear pairs, duplicates
+		for i := 0; i < n; i++ {
+			s = append(s, pipe.Seg{ox + float64(rng.Intn(3)), oy + float64(rng.Intn(3)), ox + float64(rng.Intn(3)), oy + float64(rng.Intn(3))})
+		}
+	case "zigzag": // chained, never collinear
+		for i := 0; i < n; i++ {
+			step(1, float64(1-2*(i%2)))
+		}
+	default: // "random"
+		for i := 0; i < n; i++ {
+			s = append(s, pipe.Seg{q(), q(), q(), q()})
+		}
+	}
+	return s
+}
+
+var geoKinds = []string{"chain-x", "chain-y", "chain-diag", "outline", "reversed", "back-forth", "overlap", "repeated", "zero", "grid", "zigzag", "random"}
+
 func checkC11(c *Ctx, r *Report) error {
 	rng := NewRng(c.Seed)
 	tN, lN, err := BufferConsts(c.Repo)
@@ -417,6 +549,93 @@ func checkC11(c *Ctx, r *Report) error {
 		co.Add(fmt.Sprintf("(%d%%N, %s, %s, %s)", id, thr, CList(ops), CList(obs)))
 	}
 
+	geoCases := 0
+	doGeo := func(stratum string, g GeoSpec) {
+		id++
+		geoCases++
+		got, batches, hasB, problem := deliverGeo(g, scratch)
+		h := fnv.New32a()
+		for _, sg := range g.Segs {
+			fmt.Fprintf(h, "%v", sg)
+		}
+		key := fmt.Sprintf("segments sink=%s pattern=%s n=%d writes=[%s] #%08x", g.Sink, g.Pattern, len(g.Segs), sizesKey(g.Writes), h.Sum32())
+		r.Case(stratum, key, len(g.Segs) > 1)
+		bySink[g.Sink]++
+		// the property: the sink holds exactly the segments written, each once, in order
+		ids := make([]int, len(got))
+		used := make([]bool, len(g.Segs))
+		firstBad := -1
+		for i, sg := range got {
+			ids[i] = 1<<40 + i
+			if i < len(g.Segs) && g.Segs[i] == sg {
+				ids[i], used[i] = i, true
+				continue
+			}
+			if firstBad < 0 {
+				firstBad = i
+			}
+		}
+		for i := range got { // items that arrived out of place: match them to an unused written one (for the model)
+			if ids[i] < 1<<40 {
+				continue
+			}
+			for j, sg := range g.Segs {
+				if !used[j] && sg == got[i] {
+					ids[i], used[j] = j, true
+					break
+				}
+			}
+		}
+		if problem == "" && (firstBad >= 0 || len(got) != len(g.Segs)) {
+			k := firstBad
+			if k < 0 {
+				k = len(got)
+			}
+			problem = fmt.Sprintf("%d segments written, %d in the sink; first difference at position %d:", len(g.Segs), len(got), k)
+			if k < len(g.Segs) {
+				problem += fmt.Sprintf(" written %v", g.Segs[k])
+			} else {
+				problem += " nothing written"
+			}
+			if k < len(got) {
+				problem += fmt.Sprintf(", found %v", got[k])
+			} else {
+				problem += ", nothing found"
+			}
+		}
+		if problem != "" {
+			r.Violate(key, fmt.Sprintf("%s: %s", g.Sink, problem), g)
+		}
+		// the same case for the model: one producer, items numbered by position
+		wl := []string{}
+		seq := 0
+		ws := append([]int{}, g.Writes...)
+		ws = append(ws, len(g.Segs)) // the left-over Write of GeoScript2
+		for _, w := range ws {
+			if w > len(g.Segs)-seq {
+				w = len(g.Segs) - seq
+			}
+			if w == 0 {
+				wl = append(wl, "[]")
+			} else {
+				wl = append(wl, fmt.Sprintf("[(%d%%N, %d)]", seq, w))
+			}
+			seq += w
+		}
+		bterm := "None"
+		if hasB {
+			bs := make([]string, len(batches))
+			for i, b := range batches {
+				bs[i] = fmt.Sprint(b)
+			}
+			bterm = "(Some " + CList(bs) + ")"
+		}
+		cd.Add(fmt.Sprintf("(%d%%N, lBufferSize, %s, %s, %s, None)", id, CList([]string{CList(wl)}), runs(ids), bterm))
+		if geoCases%97 == 1 {
+			r.Sample(map[string]interface{}{"case": key, "written": len(g.Segs), "in_sink": len(got), "first_segments": g.Segs[:min(3, len(g.Segs))]})
+		}
+	}
+
 	var corpus corpusC11
 	if b, err := os.ReadFile(filepath.Join(c.Verif, "corpus", "C11.json")); err == nil {
 		if err := json.Unmarshal(b, &corpus); err != nil {
@@ -435,7 +654,10 @@ func checkC11(c *Ctx, r *Report) error {
 		for _, f := range rf.Failing {
 			var sp Spec
 			var o OpSpec
-			if json.Unmarshal(f.Input, &sp) == nil && sp.Sink != "" {
+			var g GeoSpec
+			if json.Unmarshal(f.Input, &g) == nil && g.Sink != "" && g.Segs != nil {
+				doGeo("replay", g)
+			} else if json.Unmarshal(f.Input, &sp) == nil && sp.Sink != "" {
 				doSpec("replay", sp)
 			} else if json.Unmarshal(f.Input, &o) == nil && o.Dim != 0 {
 				doOps("replay", o)
@@ -447,6 +669,9 @@ func checkC11(c *Ctx, r *Report) error {
 		}
 		for _, o := range corpus.Ops {
 			doOps("corpus", o)
+		}
+		for _, g := range corpus.Geo {
+			doGeo("corpus", g)
 		}
 
 		// ---- generated
@@ -554,6 +779,34 @@ func checkC11(c *Ctx, r *Report) error {
 			sink := sinks[k%len(sinks)]
 			doSpec(fmt.Sprintf("multi/%s/producers<=%d", sink, (np+3)/4*4), Spec{Sink: sink, Producers: ps})
 		}
+		// segment streams with free geometry (end-to-end collinear chains, reversed, overlapping,
+		// repeated, zero-length ...) to every 2D sink
+		geoN := []int{1, 2, 3, 7, lN - 1, lN + 2}
+		if c.Tier != "quick" {
+			geoN = append(geoN, lN, 2*lN+1, 5*lN+3)
+		}
+		for _, kind := range geoKinds {
+			for _, n := range geoN {
+				segs := geoStream(rng, kind, n)
+				for k, sink := range sinks2 {
+					var ws []int
+					switch (k + n) % 3 {
+					case 0: // one Write
+					case 1: // one by one
+						for i := 0; i < len(segs); i++ {
+							ws = append(ws, 1)
+						}
+					default: // chunks, empty Writes in between
+						for left := len(segs); left > 0; {
+							w := rng.Range(0, lN/2+2)
+							ws = append(ws, w)
+							left -= w
+						}
+					}
+					doGeo(fmt.Sprintf("segments/%s/%s", sink, kind), GeoSpec{Sink: sink, Pattern: kind, Segs: segs, Writes: ws})
+				}
+			}
+		}
 		// raw operation sequences: writes after Close, repeated Close, nothing but Close, no Close at all
 		no := TierN(c.Tier, 400, 2000, 800)
 		for k := 0; k < no; k++ {
@@ -593,8 +846,9 @@ func checkC11(c *Ctx, r *Report) error {
 	sort.Strings(sk)
 	r.Coverage["cases_by_sink"] = bySink
 	r.Coverage["multi_producer_cases"] = multi
+	r.Coverage["segment_stream_cases"] = geoCases
 	r.Coverage["thresholds"] = map[string]int{"tBufferSize": tN, "lBufferSize": lN}
-	r.Rule = "deliver cases: scripted Render3/Render2 writing numbered items (id = producer<<20 | index) through the real sdf.NewTriangle3Buffer / NewLine2Buffer into a harness-owned channel (batches visible) or render.ToTriangles / ToSTL / To3MF / ToDXF / ToSVG (files decoded by an own STL reader, go3mf's reader, yofu/dxf's parser, encoding/xml); item counts 0,1,2,N-1,N,N+1,2N-1,2N,2N+1,3N,5N-1,5N,5N+1,large; Write partitions one-write / singles / marching-cubes-like (0..5, mostly empty) / straddling the threshold / random chunks up to 2N / empty writes in between; 1..8 concurrent producers. ops cases: random Write/Close sequences on the real buffers (writes after Close, repeated Close, no Close). Non-trivial = at least one item (deliver) or at least two operations (ops); distinct by the spec."
+	r.Rule = "deliver cases: scripted Render3/Render2 writing numbered items (id = producer<<20 | index) through the real sdf.NewTriangle3Buffer / NewLine2Buffer into a harness-owned channel (batches visible) or render.ToTriangles / ToSTL / To3MF / ToDXF / ToSVG (files decoded by an own STL reader, go3mf's reader, yofu/dxf's parser, encoding/xml); item counts 0,1,2,N-1,N,N+1,2N-1,2N,2N+1,3N,5N-1,5N,5N+1,large; Write partitions one-write / singles / marching-cubes-like (0..5, mostly empty) / straddling the threshold / random chunks up to 2N / empty writes in between; 1..8 concurrent producers. segment cases: streams of segments with free geometry on the quarter grid (unit steps end to end along an axis, along a diagonal, a closed box outline, chained but reversed, back and forth, collinear overlapping, identical repeated, zero-length, random on 3x3 grid points, zig-zag, random) of 1,2,3,7,N-1,N+2 segments written in one Write / one by one / random chunks to the Line2Buffer collector, ToDXF and ToSVG: the sink must hold exactly the written segments, each once, in order. ops cases: random Write/Close sequences on the real buffers (writes after Close, repeated Close, no Close). Non-trivial = at least one item (deliver) or at least two operations (ops); distinct by the spec."
 	r.Trusted = append(r.Trusted,
 		"hand model coq/Sys/Buffer.v of Triangle3Buffer/Line2Buffer Write/Close and the consumer loops, tied by differential execution (cases_deliver_*.v, cases_ops_*.v): delivered sequence, batch lengths on the channel, STL count field",
 		"decoders: own binary-STL reader, github.com/hpinc/go3mf reader, github.com/yofu/dxf parser, encoding/xml (harness/kit/pipe)",
